@@ -1,4 +1,6 @@
 import Nri.Model.Pipeline
+import Nri.Proofs.PipeLife
+import Nri.Gen.PipeLifeFacts
 import Nri.Gen.PipeFacts
 /-!
 C05 — every resource decision reaches the runtime: runtime view equals cache view.
@@ -90,3 +92,136 @@ theorem rewrite_same_idempotent (c : Ctr) (h : CtrInv c) (hp : ∀ i, c.pend i =
     simp
 
 end Nri.Pipe
+
+/-!
+## Request-level model with the container life cycle (`Nri.PipeLife`)
+
+`Model/PipeLife.lean` follows `nri.go` handler by handler: the kind of a pending request is fixed by
+the container's state when it is first written (adjustment iff `creating`), `GetPendingUpdate` drops
+a request of the wrong kind, `getPendingUpdates` skips the container named by the request and keeps
+the mark of a container it got nothing from, CreateContainer/StopContainer change the state before
+collecting.  The theorems hold for EVERY policy behaviour (arbitrary writes), every mixture of
+successful and refused requests, every event order the runtime can produce (`WfEv`: it starts only
+containers whose creation succeeded).
+-/
+namespace Nri.PipeLife
+
+/-- every state reachable from the empty cache satisfies the pipeline invariant (ids unique; what the
+runtime has plus what is pending is what the cache records; every pending request is marked; only a
+container being created waits for an adjustment) -/
+theorem life_invariant {s : St} (h : Reach s) : Inv s := reach_inv h
+
+/-- **runtime view = cache view, nothing pending.** In every reachable state - whatever was left
+pending by earlier refused requests - a successful CreateContainer, UpdateContainer, StopContainer
+(of a known container), Synchronize or configuration push leaves every created/running container with
+the runtime's view equal to the cache's and no pending change. -/
+theorem life_views_agree {s : St} (h : Reach s) (e : Ev)
+    (hf : match e with
+      | .create _ _ _ _ ok => ok = true
+      | .update _ ok => ok = true
+      | .push _ ok => ok = true
+      | .stop id _ ok => ok = true ∧ s.any (fun c => c.id = id) = true
+      | _ => False) :
+    ∀ c ∈ (step s e).1, isLive c.state = true → c.req = none ∧ ∀ i, c.told i = c.cache i :=
+  flush_establishes_clean s e (reach_inv h) hf
+
+/-- the requests that do not collect updates (StartContainer, RemoveContainer, StopContainer of an
+unknown container) keep it that way -/
+theorem life_views_stay_agreed {s : St} (h : Reach s) (e : Ev) (hw : WfEv s e)
+    (hc : ∀ c ∈ s, isLive c.state = true → Clean c) (adj : Option Fields) (ups : List Msg)
+    (hr : (step s e).2 = .ok adj ups) : ∀ c ∈ (step s e).1, isLive c.state = true → Clean c :=
+  clean_step s e (reach_inv h) hw hc adj ups hr
+
+/-- **at most one update per container** in every reply -/
+theorem life_one_update_per_container {s : St} (h : Reach s) (e : Ev) (adj : Option Fields) (ups : List Msg)
+    (hr : (step s e).2 = .ok adj ups) : (ups.map (·.id)).Nodup :=
+  step_updates_nodup s e (reach_inv h) adj ups hr
+
+/-- **the adjustment describes only the container being created**: whatever the policy wrote to other
+containers travels as updates, and no update of the CreateContainer reply addresses the created one -/
+theorem life_adjust_only_self (s : St) (id : String) (init : Nat → String) (old : Option String) (ws : List Write) (ok : Bool)
+    (adj : Option Fields) (ups : List Msg) (hr : (step s (.create id init old ws ok)).2 = .ok adj ups) :
+    ∀ m ∈ ups, m.id ≠ id := create_updates_skip_self s id init old ws ok adj ups hr
+
+/-- with a policy that writes only to live containers (and not to the one being stopped) and no
+refused request, every state keeps: invariant, all live containers clean, no stopped or failed
+container with an update waiting -/
+theorem life_good_history {s : St} (h : GoodReach s) : Inv s ∧ (∀ c ∈ s, isLive c.state = true → Clean c) ∧ DeadQuiet s :=
+  good_reach h
+
+/-- **no update addresses a container the runtime has stopped or removed** (same hypotheses): every
+update of every reply names a container that is in the cache and created/running after the request -/
+theorem life_no_update_to_dead {s : St} (h : GoodReach s) (e : Ev) (hw : WfEv s e) (hg : GoodEv s e)
+    (adj : Option Fields) (ups : List Msg) (hr : (step s e).2 = .ok adj ups) :
+    ∀ m ∈ ups, ∃ c ∈ (step s e).1, c.id = m.id ∧ isLive c.state = true :=
+  (good_step s e (good_reach h).1 (good_reach h).2.1 (good_reach h).2.2 hw hg).2 adj ups hr
+
+/-- the hypothesis is needed: a request refused after the policy wrote leaves the change pending, and if
+the container stops meanwhile the next collecting request addresses the stopped container (the
+consequence of known finding `C05:pending-after-error-reply`) -/
+theorem life_update_to_dead_after_error :
+    let s1 := (step [] (.create "a" (fun _ => "0") none [] true)).1
+    let s2 := (step s1 (.update [⟨"a", 0, "1"⟩] false)).1        -- refused after the write
+    let s3 := (step s2 (.stop "a" [] true)).1                      -- the container stops (skipped)
+    (step s3 (.push [] true)).2.upIds = some ["a"] ∧ s3.map (fun c => isDead c.state) = [true] := by
+  decide
+
+/-- non-vacuity: a concrete good history (create a, start a, create b while the policy re-pins a) reaches a
+state in which `a` got exactly one update and both containers are clean -/
+example :
+    let s1 := (step [] (.create "a" (fun _ => "0") none [⟨"a", 0, "0-3"⟩] true))
+    let s2 := (step s1.1 (.start "a"))
+    let s3 := (step s2.1 (.create "b" (fun _ => "0") none [⟨"b", 0, "2-3"⟩, ⟨"a", 0, "0-1"⟩] true))
+    s3.2.adjField 0 = some "2-3" ∧ s3.2.upIds = some ["a"] ∧
+    s3.1.map (fun c => (c.id, c.told 0, c.cache 0, c.req.isNone)) = [("b", "2-3", "2-3", true), ("a", "0-1", "0-1", true)] := by
+  and_intros <;> rfl
+
+end Nri.PipeLife
+
+/-! ### the source shapes the life-cycle model was written against (regenerated facts must equal them) -/
+namespace Nri.PipeLife.Expect
+def getPendingRequest : List String := ["if c.request == nil", "> if c.GetState() == ContainerStateCreating", "> > c.request = &nri.ContainerAdjustment{}", "> else", "> > c.request = &nri.ContainerUpdate{ ContainerId: c.GetID(), }", "return c.request"]
+def getPendingAdjustmentC : List String := ["if c.request == nil", "> return nil", "req, ok := c.request.(*nri.ContainerAdjustment)", "if !ok", "> req = nil", "c.request = nil", "return req"]
+def getPendingUpdateC : List String := ["if c.request == nil", "> return nil", "req, ok := c.request.(*nri.ContainerUpdate)", "if !ok", "> req = nil", "c.request = nil", "return req"]
+def markPending : List String := ["if c.pending == nil", "> c.pending = make(map[string]struct{})", "range controllers", "> c.pending[ctrl] = struct{}{}", "> c.cache.markPending(c)"]
+def clearPending : List String := ["delete(c.pending, controller)", "if len(c.pending) == 0", "> c.cache.clearPending(c)"]
+def getPendingContainers : List String := ["pending := make([]Container, 0, len(cch.pending))", "range cch.pending", "> c, ok := cch.LookupContainer(id)", "> if ok", "> > pending = append(pending, c)", "return pending"]
+def setterTable : List String := ["SetCPUShares: *nri.ContainerAdjustment=SetLinuxCPUShares *nri.ContainerUpdate=SetLinuxCPUShares mark cache=Cpu.Shares", "SetCPUQuota: *nri.ContainerAdjustment=SetLinuxCPUQuota *nri.ContainerUpdate=SetLinuxCPUQuota mark cache=Cpu.Quota", "SetCPUPeriod: *nri.ContainerAdjustment=SetLinuxCPUPeriod *nri.ContainerUpdate=SetLinuxCPUPeriod mark cache=Cpu.Period", "SetCpusetCpus: *nri.ContainerAdjustment=SetLinuxCPUSetCPUs *nri.ContainerUpdate=SetLinuxCPUSetCPUs mark cache=Cpu.Cpus", "SetCpusetMems: *nri.ContainerAdjustment=SetLinuxCPUSetMems *nri.ContainerUpdate=SetLinuxCPUSetMems mark cache=Cpu.Mems", "SetMemoryLimit: *nri.ContainerAdjustment=SetLinuxMemoryLimit *nri.ContainerUpdate=SetLinuxMemoryLimit mark cache=Memory.Limit", "SetMemorySwap: *nri.ContainerAdjustment=SetLinuxMemorySwap *nri.ContainerUpdate=SetLinuxMemorySwap mark cache=Memory.Swap"]
+def hCreateContainer : List String := ["c, err := m.cache.InsertContainer(container, cache.WithContainerState(cache.ContainerStateCreating))", "if err != nil", "> return nil, nil, fmt.Errorf(…)", "if old, ok := p.unmapName(c.PrettyName()); ok", "> if err := m.policy.ReleaseResources(old); err != nil", "> old.UpdateState(cache.ContainerStateExited)", "if err := m.policy.AllocateResources(c); err != nil", "> c.UpdateState(cache.ContainerStateStale)", "> return nil, nil, fmt.Errorf(…)", "c.UpdateState(cache.ContainerStateCreated)", "if err := p.runPostAllocateHooks(event, c); err != nil", "> return nil, nil, fmt.Errorf(…)", "adjust = p.getPendingAdjustment(container)", "updates = p.getPendingUpdates(container)", "return adjust, updates, nil"]
+def hRemoveContainer : List String := ["m.cache.DeleteContainer(container.Id)", "return nil"]
+def hStartContainer : List String := ["c, ok := m.cache.LookupContainer(container.Id)", "if !ok", "> return nil", "c.UpdateState(cache.ContainerStateRunning)", "return nil"]
+def hStopContainer : List String := ["c, ok := m.cache.LookupContainer(container.Id)", "if !ok", "> return nil, nil", "if err := m.policy.ReleaseResources(c); err != nil", "> return nil, fmt.Errorf(…)", "c.UpdateState(cache.ContainerStateExited)", "return p.getPendingUpdates(container), nil"]
+def hSynchronize : List String := ["allocated, released, err := p.syncWithNRI(pods, containers)", "if err != nil", "> return nil, err", "if err := m.policy.Sync(allocated, append(released, unmapped...)); err != nil", "> return nil, fmt.Errorf(…)", "return p.getPendingUpdates(nil), nil"]
+def hUpdateContainer : List String := ["c, ok := m.cache.LookupContainer(container.Id)", "if !ok", "> return nil, nil", "if realUpdates := c.SetResourceUpdates(res); !realUpdates", "> if v := c.GetCPUShares(); v != 0", "> > c.SetCPUShares(v)", "> if v := c.GetCPUQuota(); v != 0", "> > c.SetCPUQuota(v)", "> if v := c.GetCPUPeriod(); v != 0", "> > c.SetCPUPeriod(v)", "> if v := c.GetCpusetCpus(); v != \"\"", "> > c.SetCpusetCpus(v)", "> if v := c.GetCpusetMems(); v != \"\"", "> > c.SetCpusetMems(v)", "> if v := c.GetMemoryLimit(); v != 0", "> > c.SetMemoryLimit(v)", "> if v := c.GetMemorySwap(); v != 0", "> > c.SetMemorySwap(v)", "else", "> if err := m.policy.UpdateResources(c); err != nil", "> > return nil, fmt.Errorf(…)", "return p.getPendingUpdates(nil), nil"]
+def hgetPendingAdjustment : List String := ["if c, ok := p.resmgr.cache.LookupContainer(container.GetId()); ok", "> adjust := c.GetPendingAdjustment()", "> range c.GetPending()", "> > c.ClearPending(ctrl)", "> return adjust", "return nil"]
+def hgetPendingUpdates : List String := ["range m.cache.GetPendingContainers()", "> if skip != nil && skip.GetId() == c.GetID()", "> > continue", "> if u := c.GetPendingUpdate(); u != nil", "> > updates = append(updates, u)", "> > range c.GetPending()", "> > > c.ClearPending(ctrl)", "return updates"]
+def hupdateContainers : List String := ["updates := p.getPendingUpdates(nil)", "event := UpdateContainers", "_, err := p.stub.UpdateContainers(updates)", "if err != nil", "> return fmt.Errorf(…)", "return nil"]
+end Nri.PipeLife.Expect
+
+namespace Nri.PipeLife
+
+/-- the regenerated statement skeletons of the pipeline code are the ones the model follows:
+kind of a new request by state; hand-out drops the request in either case; `getPendingUpdates` skips the
+named container and clears the mark only after an update came out; `getPendingAdjustment` clears it always;
+per setter the same field in adjustment, update and cache; the order of state changes, policy calls and
+collection in every handler -/
+theorem gen_pipelife_facts_ok :
+    Nri.Gen.PipeLife.getPendingRequest = Expect.getPendingRequest ∧
+    Nri.Gen.PipeLife.getPendingAdjustmentC = Expect.getPendingAdjustmentC ∧
+    Nri.Gen.PipeLife.getPendingUpdateC = Expect.getPendingUpdateC ∧
+    Nri.Gen.PipeLife.markPending = Expect.markPending ∧
+    Nri.Gen.PipeLife.clearPending = Expect.clearPending ∧
+    Nri.Gen.PipeLife.getPendingContainers = Expect.getPendingContainers ∧
+    Nri.Gen.PipeLife.setterTable = Expect.setterTable ∧
+    Nri.Gen.PipeLife.hCreateContainer = Expect.hCreateContainer ∧
+    Nri.Gen.PipeLife.hRemoveContainer = Expect.hRemoveContainer ∧
+    Nri.Gen.PipeLife.hStartContainer = Expect.hStartContainer ∧
+    Nri.Gen.PipeLife.hStopContainer = Expect.hStopContainer ∧
+    Nri.Gen.PipeLife.hSynchronize = Expect.hSynchronize ∧
+    Nri.Gen.PipeLife.hUpdateContainer = Expect.hUpdateContainer ∧
+    Nri.Gen.PipeLife.hgetPendingAdjustment = Expect.hgetPendingAdjustment ∧
+    Nri.Gen.PipeLife.hgetPendingUpdates = Expect.hgetPendingUpdates ∧
+    Nri.Gen.PipeLife.hupdateContainers = Expect.hupdateContainers := by
+  and_intros <;> rfl
+
+end Nri.PipeLife
